@@ -27,7 +27,7 @@ var c10 = core.Register(&core.Prop{
 	Shards: func(tier string) int { return pickTier(tier, 8, 16) },
 	Floors: func(c map[string]int64, tier string) []string {
 		var out []string
-		for _, k := range []string{"analyses", "paths_expected", "refusals_expected", "callee_excluded", "locals_filtered", "sufficiency_pairs", "sufficiency_restricted_smaller", "in:typeof", "in:cond", "in:arr", "in:call", "in:pre", "in:paren", "in:bin", "repeated_mention_cases", "computed_callee_cases", "many_names_cases"} {
+		for _, k := range []string{"analyses", "paths_expected", "refusals_expected", "callee_excluded", "locals_filtered", "sufficiency_pairs", "sufficiency_restricted_smaller", "in:typeof", "in:cond", "in:arr", "in:call", "in:pre", "in:paren", "in:bin", "repeated_mention_cases", "computed_callee_cases", "many_names_cases", "sufficiency_dollar_twins"} {
 			if c[k] == 0 {
 				out = append(out, "coverage floor: no "+k)
 			}
@@ -246,6 +246,18 @@ var c10Fields = core.Mon(c10, "fields", func(w *core.W, c *FieldCase) {
 	for k, v := range fullM {
 		if keep[k] {
 			restrM[k] = v
+		}
+	}
+	// entries the formula does not name but whose names are one `$` away from names it does (the field a local "shadows",
+	// the local a field could be mistaken for): only the full map has them
+	for k := range keep {
+		twin := "$" + k
+		if strings.HasPrefix(k, "$") {
+			twin = k[1:]
+		}
+		if _, present := fullM[twin]; !present && !keep[twin] && twin != "" {
+			fullM[twin] = 977
+			w.Count("sufficiency_dollar_twins")
 		}
 	}
 	w.Count("sufficiency_pairs")
